@@ -124,7 +124,9 @@ def case_term(case, d5=True):
             f"{snap_term(fam, snaps[0])} [{'; '.join(steps)}])"), len(steps)
 
 
-THEOREMS = []
+THEOREMS = ["C14_reachable_wf", "C14_call_state_independent", "C14_history_partial", "C14_history_refuted",
+            "C14_first_call_terminates", "C14_lazy_dialect_diverges", "C14_lazy_specialisation_diverges",
+            "C14_dialect_first_raises", "C14_build_cycle_diverges", "C14_schedules_partial"]
 
 
 def theorems(ctx):
